@@ -9,7 +9,7 @@ counters.  Property oracles on the real code: semaphore count, no blocked acquir
 positive count, Cond.Wait returns only when its ticket has been notified.  Supporting
 check: an end-to-end program (sync.Mutex/RWMutex/WaitGroup/Once/atomic counters)
 compiled by llgo against the reference toolchain."""
-import json, os, sys, collections
+import json, os, re, sys, collections
 from concurrent.futures import ThreadPoolExecutor
 import vlib
 from vlib import coq_list
@@ -51,43 +51,228 @@ def case_term(r):
     return "((%s : %s), (%s : %s))" % (inp, ti, obs, to)
 
 
-def e2e_smoke(ck):
-    """(E) supporting check: goroutines + sync.Mutex/RWMutex/WaitGroup/Once/atomic, llgo vs go"""
+# ---------------------------------------------------------------- T2: lowering of sync/atomic
+ATYPES = [  # Go type name in sync/atomic function names, operand type, width on a 64-bit / 32-bit target
+    ("Int32", "int32", "W32", "W32"), ("Int64", "int64", "W64", "W64"),
+    ("Uint32", "uint32", "W32", "W32"), ("Uint64", "uint64", "W64", "W64"),
+    ("Uintptr", "uintptr", "W64", "W32"), ("Pointer", "unsafe.Pointer", "WPtr", "WPtr"),
+]
+AOPS = [  # Go name, Coq constructor, has a Pointer variant
+    ("Load", "ALoad", True), ("Store", "AStore", True), ("Add", "AAdd", False), ("Swap", "ASwap", True),
+    ("CompareAndSwap", "ACas", True), ("And", "AAnd", False), ("Or", "AOr", False),
+]
+IRW = {"i32": "W32", "i64": "W64", "ptr": "WPtr"}
+ORD = {"unordered": "OUnordered", "monotonic": "OMonotonic", "acquire": "OAcquire", "release": "ORelease",
+       "acq_rel": "OAcqRel", "seq_cst": "OSeqCst"}
+
+
+def gen_atomic_pkg():
+    """a package that calls every sync/atomic function; returns (source, [(ir function name, Go name, op, type index)])"""
+    lines = ["package main", "", "import (", '	"sync/atomic"', '	"unsafe"', ")", ""]
+    fns = []
+    for gop, cop, hasptr in AOPS:
+        for ti, (tn, ty, _, _) in enumerate(ATYPES):
+            if tn == "Pointer" and not hasptr:
+                continue
+            name = "f_%s_%s" % (gop, tn)
+            call = "atomic.%s%s" % (gop, tn)
+            if gop == "Load":
+                lines.append("func %s(p *%s) %s { return %s(p) }" % (name, ty, ty, call))
+            elif gop == "Store":
+                lines.append("func %s(p *%s, v %s) { %s(p, v) }" % (name, ty, ty, call))
+            elif gop == "CompareAndSwap":
+                lines.append("func %s(p *%s, o, n %s) bool { return %s(p, o, n) }" % (name, ty, ty, call))
+            else:
+                lines.append("func %s(p *%s, v %s) %s { return %s(p, v) }" % (name, ty, ty, ty, call))
+            fns.append(("verifprog." + name, call, cop, ti))
+    # typed values: the methods live in package sync/atomic (its IR is printed too);
+    # Pointer[T] is generic and is instantiated here
+    lines += ["", "type cell struct{ a int }", "var gp atomic.Pointer[cell]",
+              "func m_ptr(c *cell) (*cell, *cell, bool) {", "\tgp.Store(c)", "\to := gp.Swap(c)",
+              "\treturn gp.Load(), o, gp.CompareAndSwap(c, c)", "}",
+              "var gi32 atomic.Int32; var gi64 atomic.Int64; var gu32 atomic.Uint32; var gu64 atomic.Uint64; var gup atomic.Uintptr; var gb atomic.Bool",
+              "func m_use() {", "\tgi32.Add(1); gi64.Add(1); gu32.Add(1); gu64.Add(1); gup.Add(1); gb.Store(true)", "}",
+              "", "func main() {}", ""]
+    for tn, _, _, _ in ATYPES[:5]:
+        ti = [x[0] for x in ATYPES].index(tn)
+        for gop, cop, _ in AOPS:
+            fns.append(("sync/atomic.(*%s).%s" % (tn, gop), "atomic.%s.%s" % (tn, gop), cop, ti))
+    for gop, cop in (("Load", "ALoad"), ("Store", "AStore"), ("Swap", "ASwap"), ("CompareAndSwap", "ACas")):
+        fns.append(("sync/atomic.(*Bool).%s" % gop, "atomic.Bool.%s" % gop, cop, 2))   # a uint32 underneath
+        fns.append(("sync/atomic.(*Pointer[verifprog.cell]).%s" % gop, "atomic.Pointer[T].%s" % gop, cop, 5))
+    return "\n".join(lines), fns
+
+
+def split_ir(ir):
+    fns, cur = {}, None
+    for line in ir.splitlines():
+        m = re.match(r'define\s.*?@("[^"]+"|[\w.$]+)\(', line)
+        if m:
+            cur = (m.group(1).strip('"'), [])
+            continue
+        if cur is not None:
+            if line.startswith("}"):
+                fns[cur[0]] = cur[1]
+                cur = None
+            else:
+                cur[1].append(line)
+    return fns
+
+
+def atomic_instrs(body):
+    """[(Coq instruction, Coq width or None, [Coq orderings], text)] of every atomic instruction of a function body"""
+    res = []
+    ords = "|".join(ORD)
+    for line in body:
+        t = line.split(";")[0].strip()
+        m = re.search(r"\bload atomic (?:volatile )?(\w+), ptr [^ ]+ (?:syncscope\(\S+\) )?(%s)\b" % ords, t)
+        if m:
+            res.append(("ILoadAtomic", IRW.get(m.group(1)), [ORD[m.group(2)]], t))
+            continue
+        m = re.search(r"\bstore atomic (?:volatile )?(\w+) [^,]+, ptr [^ ]+ (?:syncscope\(\S+\) )?(%s)\b" % ords, t)
+        if m:
+            res.append(("IStoreAtomic", IRW.get(m.group(1)), [ORD[m.group(2)]], t))
+            continue
+        # LLVM 14 prints a pointer-typed operand of atomicrmw without its type ("atomicrmw xchg ptr %0, %1 seq_cst")
+        m = re.search(r"\batomicrmw (?:volatile )?(\w+) ptr [^,]+, (?:(\w+) )?[^ ]+ (?:syncscope\(\S+\) )?(%s)\b" % ords, t)
+        if m:
+            ins = {"add": "IRmwAdd", "xchg": "IRmwXchg", "and": "IRmwAnd", "or": "IRmwOr"}.get(m.group(1))
+            res.append((ins, IRW.get(m.group(2) or "ptr"), [ORD[m.group(3)]], t))
+            continue
+        # (LLVM 14 prints pointer-typed operands of cmpxchg without their type, too)
+        m = re.search(r"\bcmpxchg (?:weak )?(?:volatile )?ptr [^,]+, (?:(i\d+) )?.*?(?:syncscope\(\S+\) )?\b(%s) (%s)(?:, align \d+)?$" % (ords, ords), t)
+        if m:
+            res.append(("ICmpXchg", IRW.get(m.group(1) or "ptr"), [ORD[m.group(2)], ORD[m.group(3)]], t))
+            continue
+        if re.search(r"(?:^|=\s)(?:load atomic|store atomic|atomicrmw|cmpxchg)\s", t):
+            res.append((None, None, [], t))      # an atomic instruction this parser does not understand
+    return res
+
+
+def t2_atomics(ck, L, acts):
+    rc, out, gen = L.overlay_build("chore/verifgen", {"main.go": os.path.join(vlib.ROOT, "lib", "verifgen", "main.go")}, "verifgen")
+    if rc != 0:
+        acts.append(("broken", ("t2-atomics:verifgen-build", out[-1500:])))
+        return
     import e2e
-    acts = []
-    L = e2e.LLGo(ck)
-    if not L.ok:
-        return [("log", "e2e: llgo could not be built, smoke test skipped: " + L.buildlog[-300:]), ("cov", "skipped: llgo build failed")]
-    d = os.path.join(ck.work, "c11e2e")
-    e2e.write_module(d, {"main.go": open(os.path.join(H, "e2e", "main.go.txt")).read()}, "c11e2e")
+    src, fns = gen_atomic_pkg()
+    d = os.path.join(ck.work, "c11atomics")
+    e2e.write_module(d, {"main.go": src})
+    nfn = nins = 0
+    # (a 32-bit target cannot be emitted here: build.Do assembles the imported sync/atomic for it and
+    # LLVM 14 cannot re-read its own untyped "atomicrmw xchg ptr %0, %1")
+    for target, wcol, flags, pw in (("amd64", 2, [], "W64"),):
+        # the generated package, and (64-bit target) package sync/atomic itself for the typed methods;
+        # for the 32-bit target only the generated package can be emitted (build.Do wants to assemble
+        # sync/atomic there, and LLVM 14 cannot re-read its own "atomicrmw xchg ptr %0, %1")
+        rc, ir = vlib.sh([gen] + flags + ["."], cwd=d, env=L.env(), timeout=600)
+        if rc == 0 and target == "amd64":
+            rc, ir2 = vlib.sh([gen] + flags + ["sync/atomic"], cwd=d, env=L.env(), timeout=600)
+            ir = ir + "\n" + ir2 if rc == 0 else ir2
+        if rc != 0:
+            acts.append(("broken", ("t2-atomics:verifgen-run-" + target, ir[-1500:])))
+            continue
+        bodies = split_ir(ir)
+        tfns = [f for f in fns if target == "amd64" or f[0].startswith("verifprog.") or "Pointer[" in f[0]]
+        terms, info = [], []
+        for irname, goname, cop, ti in tfns:
+            body = bodies.get(irname)
+            if body is None:
+                acts.append(("broken", ("t2-atomics:function-missing-in-ir", "%s (%s, %s)" % (irname, goname, target))))
+                continue
+            ins = atomic_instrs(body)
+            if any(i[0] is None or i[1] is None for i in ins):
+                acts.append(("broken", ("t2-atomics:unparsed-atomic-instruction", [i[3] for i in ins if i[0] is None or i[1] is None][:3])))
+                continue
+            w = ATYPES[ti][wcol]
+            terms.append("(%s, %s, %s)" % (cop, w, coq_list(["(%s, %s, %s)" % (i, iw, coq_list(o)) for i, iw, o, _ in ins])))
+            info.append((goname, target, cop, w, [i[3] for i in ins]))
+            nins += len(ins)
+        nfn += len(terms)
+        keyed = {f[0] for f in fns}
+        for fname, body in bodies.items():
+            if fname in keyed:
+                continue
+            for i, iw, o, txt in atomic_instrs(body):
+                if i is None or any(x != "OSeqCst" for x in o):
+                    acts.append(("viol", ("atomic-instruction-not-seq-cst", "function %s (%s) contains the atomic instruction `%s`: every sync/atomic operation must be seq_cst"
+                                          % (fname, target, txt), {"function": fname, "target": target, "instruction": txt})))
+                nins += 1
+        text = ("From LLGoV Require Import Lib.Common C11.Model.\nDefinition obs : list observed_fn := " + coq_list(terms) +
+                ".\nDefinition BAD := Eval vm_compute in bad_lowerings " + pw + " 0%N obs.\nPrint BAD.\n"
+                "Definition MISSING := Eval vm_compute in missing_keys obs.\nPrint MISSING.\n")
+        rc, out = ck.coq_run(text, "c11_atomics_" + target)
+        mb = re.search(r"BAD\s*=\s*\[(.*?)\]\s*:", out, re.S)
+        mm = re.search(r"MISSING\s*=\s*\[(.*?)\]\s*:", out, re.S)
+        if rc != 0 or not mb or not mm:
+            acts.append(("broken", ("t2-atomics:coq-eval-" + target, out[-1200:])))
+            continue
+        for ix in (int(x) for x in re.findall(r"\d+", mb.group(1))):
+            goname, tg, cop, w, texts = info[ix]
+            bad_ord = [t for t in texts if "seq_cst" not in t or re.search(r"\b(monotonic|acquire|release|acq_rel|unordered)\b", t)]
+            key = "atomic-lowering-not-seq-cst" if bad_ord else "atomic-lowering-differs-from-table"
+            acts.append(("viol", (key, "sync/%s on %s is lowered to %s; the table atomic_lowering %s %s requires the single instruction kind of the table with seq_cst ordering only"
+                                  % (goname, tg, texts if texts else "no atomic instruction at all", cop, w),
+                                  {"function": goname, "target": tg, "instructions": texts})))
+        if mm.group(1).strip():
+            acts.append(("broken", ("t2-atomics:api-keys-not-exercised-" + target, mm.group(1).strip())))
+    acts.append(("cov_t2", "%d functions / methods (amd64), %d atomic instructions compared with atomic_lowering inside Coq" % (nfn, nins)))
+    acts.append(("count", nfn))
+
+
+def e2e_program(ck, L, acts, name, srcfile, runs, keyprefix, timeout=90, hang_is_violation=True):
+    """compile one program with llgo and with go, run the llgo binary `runs` times, compare line by line"""
+    import e2e
+    d = os.path.join(ck.work, name)
+    e2e.write_module(d, {"main.go": open(os.path.join(H, "e2e", srcfile)).read()}, name)
     rc, out = L.build(d, os.path.join(d, "prog_llgo"))
     if rc != 0:
-        return [("log", "e2e: llgo build of the smoke program failed: " + out[-600:]), ("cov", "skipped: llgo could not compile the program")]
+        acts.append(("log", "e2e: llgo build of %s failed: %s" % (name, out[-600:])))
+        acts.append(("cov", "%s skipped: llgo could not compile the program" % name))
+        return
     rc2, out2 = e2e.go_build(d, os.path.join(d, "prog_go"))
-    rcg, _, want = e2e.run_plain(os.path.join(d, "prog_go"))
+    rcg, _, want = e2e.run_plain(os.path.join(d, "prog_go"), timeout=timeout)
     if rc2 != 0 or rcg != 0:
-        return [("log", "e2e: reference build failed " + out2[-300:]), ("cov", "skipped: reference build failed")]
+        acts.append(("log", "e2e: reference build/run of %s failed %s" % (name, out2[-300:])))
+        acts.append(("cov", "%s skipped: reference build failed" % name))
+        return
     ndiff = nrun = 0
-    for i in range(3):          # the result must not depend on the OS schedule
-        try:
-            rc1, _, got = L.run_bin(os.path.join(d, "prog_llgo"), timeout=60)
-        except Exception as ex:      # hang = watchdog
-            acts.append(("viol", ("e2e-sync-smoke-hang", "llgo-compiled sync smoke program did not finish: %s" % ex, {})))
-            break
+    wl = want.strip().split("\n")
+    for i in range(runs):          # the result must not depend on the OS schedule
+        rc1, _, got = L.run_bin(os.path.join(d, "prog_llgo"), timeout=timeout)
         nrun += 1
-        gl, wl = got.strip().split("\n"), want.strip().split("\n")
+        gl = got.strip().split("\n")
+        if rc1 == 124 and not hang_is_violation:   # spinning litmus on an oversubscribed machine
+            acts.append(("log", "e2e: %s did not finish within %d s (machine load); not counted" % (name, timeout)))
+            nrun -= 1
+            break
         if rc1 == 124:
-            acts.append(("viol", ("e2e-sync-smoke-hang", "llgo-compiled sync smoke program did not finish within 60 s", {"stderr_tail": got[-600:]})))
+            acts.append(("viol", (keyprefix + "-hang", "llgo-compiled program %s did not finish within %d s" % (name, timeout), {"stderr_tail": got[-600:]})))
             break
         if rc1 != 0 or len(gl) != len(wl):
-            acts.append(("viol", ("e2e-sync-smoke-run", "llgo-compiled program exit %d, %d lines (go: %d)" % (rc1, len(gl), len(wl)), {"stderr_tail": got[-600:]})))
+            acts.append(("viol", (keyprefix + "-run", "llgo-compiled program %s: exit %d, %d lines (go: %d)" % (name, rc1, len(gl), len(wl)), {"stderr_tail": got[-600:]})))
             break
         for a, b in zip(gl, wl):
             if a != b:
                 ndiff += 1
-                acts.append(("viol", ("e2e-sync-" + b.split(" ")[0], "llgo prints %r, go prints %r" % (a, b), {"llgo": a, "go": b})))
-    acts.append(("cov", "%d runs x %d lines compared, %d differ" % (nrun, len(want.strip().split("\n")), ndiff)))
-    acts.append(("count", nrun * len(want.strip().split("\n"))))
+                acts.append(("viol", (keyprefix + "-" + b.split(" ")[0], "llgo prints %r, go prints %r" % (a, b), {"llgo": a, "go": b})))
+    acts.append(("cov", "%s: %d runs x %d lines compared, %d differ" % (name, nrun, len(wl), ndiff)))
+    acts.append(("count", nrun * len(wl)))
+
+
+def e2e_part(ck):
+    """llgo built from the working tree: T2 obligation on sync/atomic, then the (E) supporting programs.
+    Runs in a worker thread; returns actions applied by the caller."""
+    import e2e
+    acts = []
+    L = e2e.LLGo(ck)
+    if not L.ok:
+        return [("broken", ("t2-atomics:llgo-build", L.buildlog[-1500:]))]
+    t2_atomics(ck, L, acts)
+    # goroutines + sync.Mutex/WaitGroup/Once/Cond/atomic counters
+    e2e_program(ck, L, acts, "c11e2e", "main.go.txt", 3, "e2e-sync")
+    # store-buffering litmus: atomic Store then Load in two parallel threads (one total order)
+    e2e_program(ck, L, acts, "c11sb", "sb.go.txt", 2, "e2e-atomic", timeout=60, hang_is_violation=False)
     return acts
 
 
@@ -95,16 +280,17 @@ def run(ck):
     ck.trusted = ["Coq 8.16.1 kernel (coqc, vm_compute)",
                   "harness scheduler props/C10/harness/vsched + stand-ins psync / patomic (atomics are indivisible scheduling points)",
                   "hand-written model coq/theories/C11/Model.v tied to sema_llgo.go by the schedule-indexed correspondence",
-                  "reference go toolchain for the end-to-end smoke program"]
+                  "lib/verifgen (driver around internal/build.Do) and the syntactic extraction of atomic instructions in props/C11/check.py",
+                  "reference go toolchain for the end-to-end programs"]
     ck.assumptions = ["pthread mutex/condition variables behave as Mesa monitors; Signal wakes exactly one waiter if there is one",
-                      "sync/atomic operations are indivisible and sequentially consistent (they are LLVM atomics in llgo; their lowering is not checked here)",
+                      "the LLVM atomic instructions (load atomic / store atomic / atomicrmw / cmpxchg with seq_cst) are indivisible and totally ordered - LLVM's and the CPU's guarantee; that every sync/atomic operation IS lowered to such an instruction is the T2 obligation checked on every run",
                       "one semaphore address / one notify list per execution; the stdlib clients (Mutex, RWMutex, WaitGroup, Once, Cond) are Go's unchanged code and appear only in the end-to-end smoke test"]
     ck.coq_build("C11")
     ck.coq_props("LLGoV.C11.Props", "theories/C11/Props.v")
     ck.phase("coq built")
 
     ex = ThreadPoolExecutor(1)
-    fut = ex.submit(e2e_smoke, ck)
+    fut = ex.submit(e2e_part, ck)
 
     d = ccmod.make_module(ck)
     os.makedirs(os.path.join(d, "patomic"))
@@ -154,15 +340,21 @@ def run(ck):
                 k: b[k] for k in ("m", "init", "progs", "sched", "masks", "done", "fin", "end")}})
     ck.phase("model compared")
 
+    covs = []
     for kind, arg in fut.result():
         if kind == "viol":
             ck.violation(*arg)
+        elif kind == "broken":
+            ck.correspondence_broken(*arg)
         elif kind == "log":
             ck.log(arg)
         elif kind == "cov":
-            ck.cov["e2e_smoke"] = arg
+            covs.append(arg)
+        elif kind == "cov_t2":
+            ck.cov["t2_atomic_lowering"] = arg
         elif kind == "count":
             ck.cov["evaluations"] += arg
+    ck.cov["e2e_smoke"] = covs
     ck.phase("e2e smoke done")
 
     distinct = len({(r["m"], r["init"], tuple(r["progs"]), json.dumps(r["sched"])) for r in runs if len(r["sched"]) > 4})
